@@ -32,7 +32,6 @@ def emit(*es):
 
 def probes():
     ps = []
-    ps.append(("C11-assert-adds-position", [Return(Call(Var("pcall"), Fn([], False, [SCall(Call(Var("assert"), FalseE(), Str("msg")))])))], []))
     ps.append(("C11-pow-error-line", [Return(Call(Var("pcall"), Fn([], False, [Local(["z"], [Bin("pow", Nil(), Int(1))]), Local(["y"], [Int(2)])])))], []))
     CO = lambda f, *a: Call(Fld(Var("coroutine"), f), *a)
     ps.append(("C11-xpcall-handler-sees-coroutine-error", [
@@ -128,7 +127,7 @@ def run(tier, seed):
     elif k:
         ck.notes.append("known finding C11-xpcall-handler-sees-coroutine-error: the witness no longer fails (repaired?)")
 
-    nprog = int(vlib.os.environ.get("VERIF_NPROG", 0)) or (1000 if tier == "quick" else 25000)
+    nprog = int(vlib.os.environ.get("VERIF_NPROG", 0)) or (1000 if tier == "quick" else 15000)
     total = {"same": 0, "diff": 0, "known": 0, "discarded": 0, "raised_and_caught_scenarios": 0, "uncaught_programs": 0}
     cases, meta, feats, kinds = gen_cases(ck, nprog)
     res = luacore.run_both(ck, cases, gvh, oracle)
@@ -162,6 +161,7 @@ def run(tier, seed):
         nviol += 1
         if nviol <= 3:
             base.report(ck, c, g, o, gvh, oracle, what="error scenario program", budget=(120 if nviol == 1 else 25))
+    base.reference_compare(ck, lambda rng: gen_lua.ErrorGen(rng, dict(luacore.REF53_PROFILE)), 250 if tier == "quick" else 4000, gvh, oracle)
     total["raised_and_caught_scenarios"] = sum(v for k, v in feats.items() if k.startswith("catch:"))
     for i in (0, 2, 4):
         if i < len(cases):
